@@ -240,17 +240,25 @@ func (cons *VesaFbConsole) Scroll(dir ScrollDir, lines uint32) {
 
 	offset := cons.fbOffset(0, lines*cons.font.GlyphHeight-cons.offsetY)
 
+	// Only the visible part of each row is moved; the padding bytes between
+	// the end of a row and the start of the next one are left untouched.
+	rowBytes := cons.width * cons.bytesPerPixel
+
 	switch dir {
 	case ScrollDirUp:
 		startOffset := cons.fbOffset(0, 0)
 		endOffset := cons.fbOffset(0, cons.height-lines*cons.font.GlyphHeight-cons.offsetY)
-		for i := startOffset; i < endOffset; i++ {
-			cons.fb[i] = cons.fb[i+offset]
+		for rowOffset := startOffset; rowOffset < endOffset; rowOffset += cons.pitch {
+			for i := rowOffset; i < rowOffset+rowBytes; i++ {
+				cons.fb[i] = cons.fb[i+offset]
+			}
 		}
 	case ScrollDirDown:
 		startOffset := cons.fbOffset(0, lines*cons.font.GlyphHeight)
-		for i := uint32(len(cons.fb) - 1); i >= startOffset; i-- {
-			cons.fb[i] = cons.fb[i-offset]
+		for rowEnd := uint32(len(cons.fb)); rowEnd > startOffset; rowEnd -= cons.pitch {
+			for i := rowEnd - cons.pitch; i < rowEnd-cons.pitch+rowBytes; i++ {
+				cons.fb[i] = cons.fb[i-offset]
+			}
 		}
 	}
 }
